@@ -146,6 +146,12 @@ def run_diff_case(prog, params):
                 if mres is False or (mres is not True and ex.check(mres, 'result') is not None):
                     findings.append(make_finding('C02', key + '|result_differs', '%s on %s returns different data on the two backends' % (op, v), sr))
             compare_snapshots(sr, u, key, findings, 'state_after')
+            if op in ('copy_file', 'copy_dir') and om.ok and op_.ok and not findings and t.kind(v) == 'file':
+                # state carried between calls: a later write session on the source must leave the copy alone on both backends
+                sr.syms['more'] = sym_content(ex, 1, 'more')
+                for pfx in ('M_', 'P_'):
+                    sr.do('append %s%s $more' % (pfx, v))
+                compare_snapshots(sr, u, key + '|then_append_to_source', findings, 'state_after')
             if not res.samples:
                 res.samples.append({'state': shape_str(shape), 'call': outs[0][0], 'memory': om.brief(), 'physical@OSM': op_.brief()})
             return findings
